@@ -8,6 +8,9 @@
 //   fs     std::hash<xbasic_fixed_string>: equal strings hash equally across storage layouts, capacities and histories
 //   long   every length lmin..lmax x every offset 0..15 x 4 patterns (with --band 1: a band of lengths around a power of two)
 //   huge   lengths 2^k + d around the limits of the 32-bit integer types (k = 31, 32) in a sparse anonymous mapping, forked child
+//   hist   std::hash<xbasic_fixed_string>: all histories up to a depth over two HASHER objects and two string objects (in-place edits,
+//          equal-length assignment, re-construction at the same address, hasher copies)
+//   (the ALIAS part - keys written through typed lvalues x compiler x optimisation level - is alias_scen.cpp + alias_main.cpp)
 //   --one / --guard-one / --fs-one / --long-one / --huge-one : replay of a single case
 #include <xtl/xhash.hpp>
 #include <xtl/xbasic_fixed_string.hpp>
@@ -1370,6 +1373,226 @@ static void part_fswide()
                "(same for char incl. the strlen layout, and for char32_t / wchar_t in the size-field layout)", 12);
 }
 
+static std::vector<int> parse_list(const std::string& s);
+
+// ------------------------------------------------------------------------------------------------ part: hist (history of the HASHER object)
+// "std::hash of xbasic_fixed_string depends only on size() and the characters": not on what the same std::hash object was asked
+// before, not on which object at which address held which characters earlier.  Every other part hashes each string once with a
+// fresh std::hash<S>() temporary, so the hasher object never had a history.  Here ALL operation sequences up to a depth bound over
+// two hasher objects h0, h1 and two string objects s0, s1 (living at two fixed addresses) are executed; the value of every hash
+// call must equal the value a fresh hasher gives for a freshly constructed equal string.
+enum { HO_HASH = 0, HO_SET, HO_ASSIGN, HO_COPY, HO_SWAP, HO_PUSH, HO_POP, HO_RECON, HO_HCOPY, HO_HFRESH };
+struct HistOp { int kind, a, b, c; };
+static const int HIST_L = 3;                                                   // model bound on the string length
+static const char* const HIST_CONTENT[5] = {"", "a", "b", "ab", "bb"};         // letters; 'b' stands for a character with the high bit(s) set
+static const char* const HIST_INIT = "ab";                                     // both strings start as S("ab")
+
+static const std::vector<HistOp>& hist_alphabet()
+{
+    static std::vector<HistOp> al;
+    if (!al.empty()) return al;
+    for (int i = 0; i < 2; ++i) for (int j = 0; j < 2; ++j) al.push_back(HistOp{HO_HASH, i, j, 0});                                     // h_i(s_j)
+    for (int j = 0; j < 2; ++j) for (int p = 0; p < 2; ++p) for (int c = 0; c < 2; ++c) al.push_back(HistOp{HO_SET, j, p, c});          // s_j[p] = c   (in place, size kept)
+    for (int j = 0; j < 2; ++j) for (int k = 0; k < 5; ++k) al.push_back(HistOp{HO_ASSIGN, j, k, 0});                                   // s_j.assign(content k)
+    for (int j = 0; j < 2; ++j) al.push_back(HistOp{HO_COPY, j, 0, 0});                                                                 // s_j = s_(1-j)
+    al.push_back(HistOp{HO_SWAP, 0, 0, 0});                                                                                              // s_0.swap(s_1)
+    for (int j = 0; j < 2; ++j) for (int c = 0; c < 2; ++c) al.push_back(HistOp{HO_PUSH, j, c, 0});                                     // s_j.push_back(c)
+    for (int j = 0; j < 2; ++j) al.push_back(HistOp{HO_POP, j, 0, 0});                                                                  // s_j.pop_back()
+    for (int j = 0; j < 2; ++j) for (int k = 0; k < 5; ++k) al.push_back(HistOp{HO_RECON, j, k, 0});                                    // destroy s_j, construct S(content k) at the same address
+    for (int i = 0; i < 2; ++i) al.push_back(HistOp{HO_HCOPY, i, 0, 0});                                                                // h_i = h_(1-i)
+    for (int i = 0; i < 2; ++i) al.push_back(HistOp{HO_HFRESH, i, 0, 0});                                                               // h_i = std::hash<S>()
+    return al;
+}
+static std::string hist_op_text(const HistOp& o)
+{
+    const std::string s = "s" + num(o.a), q = "'";
+    const char letter[2] = {'a', 'b'};
+    switch (o.kind)
+    {
+    case HO_HASH: return "h" + num(o.a) + "(s" + num(o.b) + ")";
+    case HO_SET: return s + "[" + num(o.b) + "] = " + q + letter[o.c] + q;
+    case HO_ASSIGN: return s + ".assign(\"" + HIST_CONTENT[o.b] + "\", " + num((long long)std::strlen(HIST_CONTENT[o.b])) + ")";
+    case HO_COPY: return s + " = s" + num(1 - o.a);
+    case HO_SWAP: return "s0.swap(s1)";
+    case HO_PUSH: return s + ".push_back(" + q + letter[o.b] + q + ")";
+    case HO_POP: return s + ".pop_back()";
+    case HO_RECON: return s + ".~S(); new (&" + s + ") S(\"" + HIST_CONTENT[o.b] + "\", " + num((long long)std::strlen(HIST_CONTENT[o.b])) + ")";
+    case HO_HCOPY: return "h" + num(o.a) + " = h" + num(1 - o.a);
+    default: return "h" + num(o.a) + " = std::hash<S>()";
+    }
+}
+// the operation on the model (strings of letters); false: not enabled in this state
+static bool hist_model(const HistOp& o, std::string m[2])
+{
+    const char letter[2] = {'a', 'b'};
+    switch (o.kind)
+    {
+    case HO_SET: if (std::size_t(o.b) >= m[o.a].size()) return false; m[o.a][std::size_t(o.b)] = letter[o.c]; return true;
+    case HO_ASSIGN: case HO_RECON: m[o.a] = HIST_CONTENT[o.b]; return true;
+    case HO_COPY: m[o.a] = m[1 - o.a]; return true;
+    case HO_SWAP: std::swap(m[0], m[1]); return true;
+    case HO_PUSH: if (m[o.a].size() >= std::size_t(HIST_L)) return false; m[o.a] += letter[o.b]; return true;
+    case HO_POP: if (m[o.a].empty()) return false; m[o.a].erase(m[o.a].size() - 1); return true;
+    default: return true;
+    }
+}
+template <class CT> static CT hist_b();
+template <> char hist_b<char>() { return char(0x80); }
+template <> char16_t hist_b<char16_t>() { return char16_t(0x8081); }
+template <> char32_t hist_b<char32_t>() { return char32_t(0x80818283u); }
+template <> wchar_t hist_b<wchar_t>() { return wchar_t(0x80818283u); }
+
+static long long g_hist_histories = 0, g_hist_invalid = 0;
+
+template <class S>
+struct HistRun
+{
+    typedef typename S::value_type CT;
+    static std::basic_string<CT> conv(const std::string& m)
+    {
+        std::basic_string<CT> r;
+        for (char l : m) r += l == 'a' ? CT('a') : hist_b<CT>();
+        return r;
+    }
+    static uint64_t canon(const std::string& m)
+    {
+        static std::vector<std::pair<std::string, uint64_t> > cache;
+        for (const auto& x : cache) if (x.first == m) return x.second;
+        const std::basic_string<CT> c = conv(m);
+        S* t = new S(c.data(), c.size());
+        const uint64_t h = uint64_t(std::hash<S>()(*t));
+        delete t;
+        cache.push_back(std::make_pair(m, h));
+        return h;
+    }
+    // executes the history on two strings at two fixed addresses and two hasher objects; the last operation must be a hash call
+    static uint64_t exec(const int* seq, int n, bool& valid, std::string* observed_model, bool verbose)
+    {
+        const std::vector<HistOp>& al = hist_alphabet();
+        alignas(16) static unsigned char slot[2][sizeof(S)];
+        const std::basic_string<CT> init = conv(HIST_INIT);
+        S* s[2] = {new (slot[0]) S(init.data(), init.size()), new (slot[1]) S(init.data(), init.size())};
+        std::hash<S> h[2];
+        std::string m[2] = {HIST_INIT, HIST_INIT};
+        uint64_t last = 0;
+        for (int k = 0; k < n; ++k)
+        {
+            const HistOp& o = al[std::size_t(seq[k])];
+            hist_model(o, m);
+            switch (o.kind)
+            {
+            case HO_HASH:
+                last = uint64_t(h[o.a](*s[o.b]));
+                if (verbose) std::printf("  %s -> %s (string \"%s\"; fresh hasher on a fresh equal string: %s)\n", hist_op_text(o).c_str(), h64(last).c_str(), m[o.b].c_str(), h64(canon(m[o.b])).c_str());
+                break;
+            case HO_SET: (*s[o.a])[std::size_t(o.b)] = o.c == 0 ? CT('a') : hist_b<CT>(); break;
+            case HO_ASSIGN: { const std::basic_string<CT> c = conv(HIST_CONTENT[o.b]); s[o.a]->assign(c.data(), c.size()); break; }
+            case HO_COPY: *s[o.a] = *s[1 - o.a]; break;
+            case HO_SWAP: s[0]->swap(*s[1]); break;
+            case HO_PUSH: s[o.a]->push_back(o.b == 0 ? CT('a') : hist_b<CT>()); break;
+            case HO_POP: s[o.a]->pop_back(); break;
+            case HO_RECON: { const std::basic_string<CT> c = conv(HIST_CONTENT[o.b]); s[o.a]->~S(); s[o.a] = new (slot[o.a]) S(c.data(), c.size()); break; }
+            case HO_HCOPY: h[o.a] = h[1 - o.a]; break;
+            default: h[o.a] = std::hash<S>(); break;
+            }
+        }
+        const HistOp& lo = al[std::size_t(seq[n - 1])];
+        const std::basic_string<CT> want = conv(m[lo.b]);
+        // whether the string has the intended value is C01's business; C14 only speaks about strings that ARE equal
+        valid = s[lo.b]->size() == want.size() && std::equal(want.begin(), want.end(), s[lo.b]->data());
+        *observed_model = m[lo.b];
+        s[0]->~S();
+        s[1]->~S();
+        return last;
+    }
+    static void judge(const char* tname, const int* seq, int n, bool verbose)
+    {
+        const std::vector<HistOp>& al = hist_alphabet();
+        bool valid = false;
+        std::string m;
+        const uint64_t got = exec(seq, n, valid, &m, verbose);
+        ++g_hist_histories;
+        if (!valid) { ++g_hist_invalid; return; }
+        ++g_evals;
+        const uint64_t exp = canon(m);
+        if (got == exp) return;
+        std::string hist, code;
+        for (int k = 0; k < n; ++k) { hist += (k ? "; " : "") + hist_op_text(al[std::size_t(seq[k])]); code += (k ? "," : "") + num(seq[k]); }
+        const std::basic_string<CT> c = conv(m);
+        vf::violation(std::string("C14/std::hash<fixed_string>/") + tname + "/depends-on-hasher-history",
+                      std::string("S = ") + tname + "; S s0(\"ab\", 2), s1(\"ab\", 2); std::hash<S> h0, h1; ('b' = the character " + h64(uint64_t(typename std::make_unsigned<CT>::type(hist_b<CT>()))) +
+                          ") history: " + hist + " -> the last call returned " + h64(got) + " for the string \"" + m + "\" (" + num((long long)m.size()) + " characters, bytes " +
+                          spaced(reinterpret_cast<const uint8_t*>(c.data()), c.size() * sizeof(CT)) + "), but std::hash<S>() of a freshly constructed equal string gives " + h64(exp),
+                      {"--hist-one", tname, code});
+    }
+    // all histories of exactly `depth` operations whose last one is a hash call (shorter ones are the histories of smaller depth)
+    static void dfs(const char* tname, int* seq, int pos, int depth, const std::string m[2], int shard, int nshard)
+    {
+        const std::vector<HistOp>& al = hist_alphabet();
+        for (std::size_t i = 0; i < al.size(); ++i)
+        {
+            if (pos == 0 && int(i % std::size_t(nshard)) != shard) continue;
+            if (pos == depth - 1 && al[i].kind != HO_HASH) continue;
+            std::string m2[2] = {m[0], m[1]};
+            if (!hist_model(al[i], m2)) continue;
+            seq[pos] = int(i);
+            if (pos == depth - 1) judge(tname, seq, depth, false);
+            else dfs(tname, seq, pos + 1, depth, m2, shard, nshard);
+        }
+    }
+    static void run(const char* tname, int maxdepth, int shard, int nshard)
+    {
+        int seq[16];
+        const std::string m[2] = {HIST_INIT, HIST_INIT};
+        for (int d = 1; d <= maxdepth && !out_of_time(); ++d) dfs(tname, seq, 0, d, m, shard, nshard);
+    }
+};
+
+typedef xtl::xbasic_fixed_string<char16_t, 3> FS_W16P3;
+typedef xtl::xbasic_fixed_string<char16_t, 3, 64> FS_W16F3;
+typedef xtl::xbasic_fixed_string<char32_t, 3, 64> FS_W32F3;
+static const char* const HIST_TYPES[6] = {"xbasic_fixed_string<char,3>", "xbasic_fixed_string<char,256>", "xbasic_fixed_string<char,3,buffer>",
+                                          "xbasic_fixed_string<char16_t,3>", "xbasic_fixed_string<char16_t,3,size-field>", "xbasic_fixed_string<char32_t,3,size-field>"};
+static void hist_dispatch(int t, int maxdepth, int shard, int nshard, const int* one, int none, bool verbose)
+{
+    switch (t)
+    {
+    case 0: if (one) HistRun<FS_P3>::judge(HIST_TYPES[t], one, none, verbose); else HistRun<FS_P3>::run(HIST_TYPES[t], maxdepth, shard, nshard); break;
+    case 1: if (one) HistRun<FS_F256>::judge(HIST_TYPES[t], one, none, verbose); else HistRun<FS_F256>::run(HIST_TYPES[t], maxdepth, shard, nshard); break;
+    case 2: if (one) HistRun<FS_S3>::judge(HIST_TYPES[t], one, none, verbose); else HistRun<FS_S3>::run(HIST_TYPES[t], maxdepth, shard, nshard); break;
+    case 3: if (one) HistRun<FS_W16P3>::judge(HIST_TYPES[t], one, none, verbose); else HistRun<FS_W16P3>::run(HIST_TYPES[t], maxdepth, shard, nshard); break;
+    case 4: if (one) HistRun<FS_W16F3>::judge(HIST_TYPES[t], one, none, verbose); else HistRun<FS_W16F3>::run(HIST_TYPES[t], maxdepth, shard, nshard); break;
+    default: if (one) HistRun<FS_W32F3>::judge(HIST_TYPES[t], one, none, verbose); else HistRun<FS_W32F3>::run(HIST_TYPES[t], maxdepth, shard, nshard); break;
+    }
+}
+static void part_hist(int maxdepth, int shard, int nshard)
+{
+    if (maxdepth < 1 || maxdepth > 8) { std::fprintf(stderr, "bounds out of range\n"); std::exit(2); }
+    for (int t = 0; t < 6; ++t) hist_dispatch(t, maxdepth, shard, nshard, nullptr, 0, false);
+    if (out_of_time()) vf::cap("hasher-history part shard " + num(shard) + "/" + num(nshard) + " stopped by its deadline");
+    else vf::stat("hist_shards_completed", 1);
+    vf::stat("hist_histories", g_hist_histories);
+    vf::stat("hist_skipped_string_not_as_intended", g_hist_invalid);
+    vf::smax("hist_max_depth", maxdepth);
+    vf::smax("hist_alphabet_size", (long long)hist_alphabet().size());
+    vf::smax("hist_string_types", 6);
+    if (shard == 0)
+        vf::sample("hasher history: S s0(\"ab\"), s1(\"ab\"); std::hash<S> h0, h1; h0(s0); s0[0] = 'b'; h0(s0) -> the second call returns what a fresh std::hash<S>() gives for a fresh S(\"bb\") "
+                   "(one of all histories of <= " + num(maxdepth) + " operations over " + num((long long)hist_alphabet().size()) + " operations, 6 string types)", 12);
+}
+static void hist_one(const std::string& tname, const std::string& code)
+{
+    std::vector<int> seq = parse_list(code);
+    int t = -1;
+    for (int k = 0; k < 6; ++k) if (tname == HIST_TYPES[k]) t = k;
+    const std::vector<HistOp>& al = hist_alphabet();
+    bool ok = t >= 0 && !seq.empty() && seq.size() <= 16;
+    std::string m[2] = {HIST_INIT, HIST_INIT};
+    for (std::size_t k = 0; ok && k < seq.size(); ++k) ok = seq[k] >= 0 && std::size_t(seq[k]) < al.size() && hist_model(al[std::size_t(seq[k])], m);
+    if (!ok || al[std::size_t(seq.back())].kind != HO_HASH) { std::fprintf(stderr, "bad --hist-one arguments\n"); std::exit(2); }
+    hist_dispatch(t, 0, 0, 1, seq.data(), int(seq.size()), true);
+}
+
 // ------------------------------------------------------------------------------------------------ reference self-test
 static uint64_t ref32_as_f(const uint8_t* p, std::size_t n, uint64_t s) { return c14ref::murmur2_32(p, n, uint32_t(s)); }
 static uint64_t ref64_as_f(const uint8_t* p, std::size_t n, uint64_t s) { return c14ref::murmur2_64a(p, n, s); }
@@ -1407,7 +1630,7 @@ int main(int argc, char** argv)
     std::string part = "main";
     std::size_t lmin = 0, lmax = 39, len = 3, lmain = 0;
     bool pairs = false, wide = false, two_seeds = false;
-    int shard = 0, nshard = 1, naligns = 16;
+    int shard = 0, nshard = 1, naligns = 16, depth = 4;
     bool band = false;
     std::vector<int> ks = {31, 32}, ds = {0, 13}, aoffs = {1};
     std::vector<std::pair<int, int> > hlens;
@@ -1446,6 +1669,8 @@ int main(int argc, char** argv)
         else if (a == "--fs-one") { fs_content(unhex(argv[++i]), true); part = ""; }
         else if (a == "--fsw-one") { fsw_one(argv[i + 1], std::size_t(std::atoi(argv[i + 2])), true); part = ""; i += 2; }
         else if (a == "--fs-long-one") { fs_long_len(std::size_t(std::atoi(argv[++i])), true); part = ""; }
+        else if (a == "--depth") depth = std::atoi(argv[++i]);
+        else if (a == "--hist-one") { hist_one(argv[i + 1], argv[i + 2]); part = ""; i += 2; }
         else if (a == "--naligns") naligns = std::atoi(argv[++i]);
         else if (a == "--band") band = std::atoi(argv[++i]) != 0;
         else if (a == "--ks") ks = parse_list(argv[++i]);
@@ -1497,6 +1722,7 @@ int main(int argc, char** argv)
     }
     else if (part == "fslong") part_fslong();
     else if (part == "fswide") part_fswide();
+    else if (part == "hist") part_hist(depth, shard, nshard);
     else if (part != "") { std::fprintf(stderr, "unknown part %s\n", part.c_str()); return 2; }
     for (int fn = 0; fn < NFN; ++fn)
         for (int c = 0; c < 8; ++c)
